@@ -1,6 +1,7 @@
 import Pendulum.Proofs.WeekNav2
 import Pendulum.Proofs.WeekNavDT
 import Pendulum.Proofs.WeekNavDTQY
+import Pendulum.Proofs.WeekNavGen
 /-! # C16 — weekday navigation lands on the right day inside the right unit
 
 Property theorems only. `WeekNav.*` (Model/WeekNav.lean) is the hand model of `Date`/`DateTime`
@@ -410,5 +411,96 @@ example : ∀ f, nthOf .quarter 735161 3 6 = some 735161 ∧ nthOf .year 735161 
 example : OnDay (.named saoPaulo2013) 735161 ∧ OnDay (.named saoPaulo2013) 735142 ∧
     AnchorPlain ⟨.named saoPaulo2013, 1382270400000000, true⟩ 735142 :=
   ⟨onDay_named _ _ (by decide) (by decide), onDay_named _ _ (by decide) (by decide), Or.inr (by decide)⟩
+
+/-! ### the source itself: regenerated definitions (tools/gen_weeknav.py → `Pendulum.Gen.WeekNav`) equal the model
+
+`Gen.WeekNav` is re-translated from `date.py` on every run, one Lean definition per Python method (`replace`, `set`,
+`next`/`previous` with their `while` loops, the nine `_first_of_*`/`_last_of_*`/`_nth_of_*` with their `for` loops and
+month-calendar lookups, the dispatchers `first_of`/`last_of`/`nth_of`). Under the reading `WeekNavGen.env` of the
+parameter record (`weekday`, `add(days=n)` = ordinal arithmetic; `calendar.monthrange/monthcalendar` = the reference
+calendar and the model's `mcal`) what the translated source computes is what the Date-level hand model computes, for
+every valid date (`validD`; every ordinal gives one: `dOf`), every weekday 0..6, every n, and every iteration bound
+≥ 6 handed to the `while` loops. -/
+section source
+open Pendulum.WeekNavGen Pendulum.Gen.WeekNav
+
+/-- `Date.next` / `Date.previous`: the translated day-by-day loops are the model's `next` / `previous` -/
+theorem next_previous_source_eq_model (d : D) (wd : Int) (fuel : Nat) (hf : 6 ≤ fuel) (hwd : 0 ≤ wd ∧ wd ≤ 6) :
+    date_next env fuel d (some wd) = .ok (dOf (next (ordD d) wd)) ∧
+    date_previous env fuel d (some wd) = .ok (dOf (previous (ordD d) wd)) :=
+  ⟨next_eq d wd fuel hf hwd, previous_eq d wd fuel hf hwd⟩
+
+/-- … and a weekday outside 0..6 raises ValueError -/
+theorem next_previous_source_invalid_weekday (d : D) (wd : Int) (fuel : Nat) (hwd : wd < 0 ∨ 6 < wd) :
+    date_next env fuel d (some wd) = .error "ValueError" ∧ date_previous env fuel d (some wd) = .error "ValueError" :=
+  next_invalid d wd fuel hwd
+
+/-- `_first_of_month/_quarter/_year`, `_last_of_*` (month-calendar lookups, `quarter * 3 - 2`, `set(month=1)` …) -/
+theorem first_last_of_source_eq_model (u : Unit') (d : D) (hv : validD d) (wd : Option Int) :
+    ordD (firstGen env d wd u) = firstOf u (ordD d) wd ∧ ordD (lastGen env d wd u) = lastOf u (ordD d) wd := by
+  cases u
+  · exact ⟨first_of_month_eq d hv wd, last_of_month_eq d hv wd⟩
+  · exact ⟨first_of_quarter_eq d hv wd, last_of_quarter_eq d hv wd⟩
+  · exact ⟨first_of_year_eq d hv wd, last_of_year_eq d hv wd⟩
+
+/-- `_nth_of_month/_quarter/_year`: the `nth == 1` shortcut, the `range(nth - (1 if … else 0))` walk and the three
+    different "still inside the unit?" tests; `none` = the method returns None -/
+theorem nth_of_source_eq_model (u : Unit') (d : D) (hv : validD d) (nth : Nat) (wd : Int) (fuel : Nat) (hf : 6 ≤ fuel)
+    (hwd : 0 ≤ wd ∧ wd ≤ 6) :
+    resOrd (nthGen env fuel d nth wd u) = some (nthOf u (ordD d) nth wd) := by
+  cases u
+  · exact nth_of_month_eq d hv nth wd fuel hf hwd
+  · exact nth_of_quarter_eq d hv nth wd fuel hf hwd
+  · exact nth_of_year_eq d hv nth wd fuel hf hwd
+
+/-- the unit tables of `first_of` / `last_of` / `nth_of`: exactly "month", "quarter", "year" are dispatched (to the
+    method of that name), every other string raises ValueError, a `None` from `_nth_of_*` becomes PendulumException -/
+theorem dispatch_source_eq_model (E : Env) (fuel : Nat) (d : D) (s : String) (wd : Option Int) (nth w : Int) :
+    date_first_of E d s wd = (match unitOf? s with | some u => .ok (firstGen E d wd u) | none => .error "ValueError") ∧
+    date_last_of E d s wd = (match unitOf? s with | some u => .ok (lastGen E d wd u) | none => .error "ValueError") ∧
+    date_nth_of E fuel d s nth w =
+      (match unitOf? s with
+       | some u => (match nthGen E fuel d nth w u with
+                    | .error e => .error e | .ok none => .error "PendulumException" | .ok (some r) => .ok r)
+       | none => .error "ValueError") :=
+  ⟨first_of_dispatch E d s wd, last_of_dispatch E d s wd, nth_of_dispatch E fuel d s nth w⟩
+
+/-- every Date is covered: an ordinal's Date is valid and denotes that ordinal -/
+theorem source_domain (o : Int) : validD (dOf o) ∧ ordD (dOf o) = o := ⟨validD_dOf o, ordD_dOf o⟩
+
+/-! non-vacuity: 2013-10-20 (ordinal 735161, a Sunday) -/
+example : dOf 735161 = ⟨2013, 10, 20⟩ := by decide +kernel
+example : (date_first_of env ⟨2013, 10, 20⟩ "quarter" (some 0)).toOption = some ⟨2013, 10, 7⟩ := by decide +kernel
+example : (date_last_of env ⟨2013, 10, 20⟩ "year" (some 6)).toOption = some ⟨2013, 12, 29⟩ := by decide +kernel
+example : (date_nth_of env 6 ⟨2013, 10, 20⟩ "month" 3 6).toOption = some ⟨2013, 10, 20⟩ := by decide +kernel
+example : (match date_nth_of env 6 ⟨2013, 10, 20⟩ "month" 5 6 with | .error e => e | .ok _ => "") = "PendulumException" := by
+  decide +kernel
+example : (match date_first_of env ⟨2013, 10, 20⟩ "week" none with | .error e => e | .ok _ => "") = "ValueError" := by
+  decide +kernel
+example : (date_next env 6 ⟨2013, 10, 20⟩ (some 6)).toOption = some ⟨2013, 10, 27⟩ := by decide +kernel
+
+/-! DateTime level (datetime.py `next`, `previous`, `_first_of_month`, `_last_of_month`, translated on the parameter record
+of C12's generator; `_boundary` is `Gen.StartOf.dt_boundary`, tied to `StartOf.edge` in Props/C12). `run` = the
+constructor layer outside the translation: `self.add(days=n)`, date validation + `DateTime.create`. The quarter / year
+/ nth variants call methods on a *created* DateTime and stay with the hand model + correspondence run. -/
+
+/-- `DateTime.next` / `previous` (both `keep_time` branches): for every zone, wall value, fold and weekday 0..6 -/
+theorem dt_next_previous_source_eq_model (v : V) (wks wke wd : Int) (keep : Bool) (hwd : 0 ≤ wd ∧ wd ≤ 6) :
+    dtNext v wd keep = run v (Gen.WeekNav.dt_next dtEnv (StartOfGen.inst v wks wke) (some wd) keep) ∧
+    dtPrevious v wd keep = run v (dt_previous dtEnv (StartOfGen.inst v wks wke) (some wd) keep) :=
+  ⟨dt_next_eq v wks wke wd keep hwd, dt_previous_eq v wks wke wd keep hwd⟩
+
+/-- `DateTime._first_of_month` / `_last_of_month`: with and without a weekday, no hypothesis -/
+theorem dt_first_last_of_month_source_eq_model (v : V) (wks wke : Int) (wd : Option Int) :
+    dtFirstOfMonth v wd = run v (.ok (dt_first_of_month dtEnv (StartOfGen.inst v wks wke) wd)) ∧
+    dtLastOfMonth v wd = run v (.ok (dt_last_of_month dtEnv (StartOfGen.inst v wks wke) wd)) :=
+  ⟨dt_first_of_month_eq v wks wke wd, dt_last_of_month_eq v wks wke wd⟩
+
+example : (match Gen.WeekNav.dt_next dtEnv (StartOfGen.inst ⟨.naive, 1382270400000000, true⟩ 0 6) (some 0) true with
+    | .ok (.add_days n) => n | _ => 0) = 1 := by decide +kernel
+example : (match dt_first_of_month dtEnv (StartOfGen.inst ⟨.naive, 1382270400000000, true⟩ 0 6) (some 0) with
+    | .create c => (c.year, c.month, c.day, c.hour) | _ => (0, 0, 0, 1)) = (2013, 10, 7, 0) := by decide +kernel
+
+end source
 
 end Pendulum.Props.C16
